@@ -26,10 +26,12 @@ def tree(size):
     return {"f": payload(size), "d": {"x": b"1", "y": b"22"}, "old": b"OLD"}
 
 
-def script_for(verb, size, data_conn=True):
+def script_for(verb, size, data_conn=True, noread=False):
     ev = ["EPSV"]
     if data_conn:
         ev.append("@data")
+        if noread:
+            ev.append("@dstop")       # the data peer stays connected but does not read
     if verb == "RETR":
         ev.append("RETR f")
     elif verb == "LIST":
@@ -46,7 +48,7 @@ def script_for(verb, size, data_conn=True):
     return ev
 
 
-def acceptable(codes, early):
+def acceptable(codes, early, allow_running=False):
     """codes after the transfer verb.  Returns None if fine, else a reason."""
     L = list(codes)
     if not L:
@@ -70,6 +72,7 @@ def acceptable(codes, early):
             cands.append(L[:i] + L[i + 1:])
     for rest, idx in zip(cands, [i for i, c in enumerate(L) if c == "226"]):
         ok_shape = (rest == [] or (len(rest) == 1 and rest[0][0] in "45")
+                    or (allow_running and early and len(rest) == 1 and rest[0][0] == "1" and idx == 0)
                     or (len(rest) == 2 and rest[0][0] == "1" and rest[1][0] in "245"))
         if not ok_shape:
             continue
@@ -94,7 +97,7 @@ def run_abort(case, chooser):
         chooser.active = False
         rig.ev(0, "@connect")
         rig.ev(0, "USER anonymous")
-        script = script_for(verb, size, data_conn)
+        script = script_for(verb, size, data_conn, case.get("noread", False))
         state = {"armed": False, "sent": False, "early": False, "mark": 0}
 
         def inject():
@@ -143,17 +146,25 @@ def run_abort(case, chooser):
         sig = {"verb": verb, "data_conn": data_conn}
         if s.closed():
             problems.append({"kind": "session-closed-by-abort", "codes": codes})
-        why = acceptable(codes, state["early"])
+        why = acceptable(codes, state["early"], allow_running=case.get("noread", False))
         if why:
             problems.append({"kind": "abor-answer", "why": why, "codes": codes})
         # data connection closed by the server when a transfer had been started
-        if any(c.startswith("1") for c in codes) and s.data is not None:
+        if any(c.startswith("1") for c in codes) and s.data is not None and not case.get("noread"):
             mine = [t for t in w.net.all_transports if t.side == "server" and t.accepted and not t.closing
                     and not t.closed and t.get_extra_info("sockname")[1] != 2121]
             if mine:
                 problems.append({"kind": "data-connection-open-after-abort", "codes": codes})
         # only a prefix delivered / stored
         snap = rig.snapshot()
+        still_running = bool(codes) and codes[-1].startswith("1")     # ABOR overtook the verb: nothing was aborted
+        if case.get("noread") and any(c.startswith("1") for c in codes) and s.data is not None and not still_running:
+            # the server must have *started* closing the data connection (it cannot finish while the peer's window
+            # is closed); the ABOR must be answered all the same
+            mine = [t for t in w.net.all_transports if t.side == "server" and t.accepted and not t.closing
+                    and not t.closed and t.get_extra_info("sockname")[1] != 2121]
+            if mine:
+                problems.append({"kind": "data-connection-open-after-abort", "codes": codes})
         if verb == "RETR" and s.data is not None:
             got = s.data.received
             if not payload(size).startswith(got):
@@ -164,7 +175,7 @@ def run_abort(case, chooser):
             cur = snap.get("/old")
             if cur is None or not (cur.startswith(b"OLD") and payload(size).startswith(cur[3:])):
                 problems.append({"kind": "appe-not-a-prefix", "got": repr(cur)})
-        if spy.leaked():
+        if spy.leaked() and not (case.get("noread") and still_running):
             problems.append({"kind": "file-handle-open", "paths": spy.leaked()})
         # follow-ups
         fu = case["followup"]
@@ -261,6 +272,8 @@ def build_items(tier):
                             if tier == "quick" and backend == "slow" and size not in (B, 3 * B):
                                 bound = 0
                             items.append((case, bound, kinds))
+                            if data_conn and verb in ("RETR", "LIST", "MLSD") and size in (B, 3 * B) and fu in ("pwd", "again"):
+                                items.append((dict(case, noread=True), 0, kinds))
     # no transfer at all
     return items
 
@@ -300,7 +313,7 @@ def run(tier, seed, t0):
               "backends": ["memory", "slow(0.125s completion latency)"],
               "abort_positions": "k=0 (same segment as the verb) and after every network event k=1..N+1 counted from "
                                  "the transfer verb, with and without a data connection",
-              "followups": FOLLOWUPS, "deviation_bound": 1, "send_window": "lock-step", "cases": len(items)}
+              "followups": FOLLOWUPS, "data_peer": ["reading", "connected but not reading (RETR/LIST/MLSD)"], "deviation_bound": 1, "send_window": "lock-step", "cases": len(items)}
     return report.finish(
         PID, tier, seed, "model_checking", part, t0,
         rule="case = (verb, size, abort position, backend, follow-up); every schedule with <= bound deviations from the "
